@@ -208,6 +208,15 @@ impl<'tcx> Ex<'tcx> {
         }
         // string literals and other non-scalar constants
         let txt = format!("{}", c.const_);
+        if let mir::Const::Unevaluated(u, _) = c.const_ {
+            if let Some(pr) = u.promoted {
+                return arr(vec![
+                    s("k"),
+                    tyj,
+                    arr(vec![s("promoted"), s(self.id(u.def)), n(pr.as_u32() as i128)]),
+                ]);
+            }
+        }
         let mut v = vec![s("k"), tyj, arr(vec![s("?"), s(txt)])];
         if let mir::Const::Unevaluated(u, _) = c.const_ {
             v.push(s(self.id(u.def)));
@@ -643,6 +652,13 @@ impl<'tcx> Ex<'tcx> {
         }
         o.push(("inline", s(format!("{:?}", attrs.inline))));
         o.push(("body", self.body_json(def, body)));
+        let promoted = tcx.promoted_mir(did);
+        if !promoted.is_empty() {
+            o.push((
+                "promoted",
+                arr(promoted.iter().map(|b| self.body_json(def, b)).collect()),
+            ));
+        }
         Some((self.id(did), obj(o)))
     }
 
